@@ -11,11 +11,11 @@ LOG=$O/confirm.log
 cd $W || exit 9
 # normalise: pristine tree + patch + demo
 DEMO=$(git status --porcelain | grep '^??' | awk '{print $2}' | grep -v '^target' | head -1)
-git stash -q -u 2>/dev/null
-git checkout -q -- . 
+# (no git stash: the stash list is shared with /repo)
+[ -n "$DEMO" ] && [ -f "$DEMO" ] && cp "$DEMO" /tmp/mut/$ID-demo-keep.rs
+git checkout -q -- .
 git apply $O/patch.diff || { echo "PATCH DOES NOT APPLY" >> $LOG; exit 1; }
-git stash pop -q 2>/dev/null
-git checkout -q -- . 2>/dev/null; git apply $O/patch.diff 2>/dev/null
+[ -n "$DEMO" ] && [ -f /tmp/mut/$ID-demo-keep.rs ] && mv /tmp/mut/$ID-demo-keep.rs "$DEMO"
 # locate demo destination from the untracked file left by the agent, else from header of demo.rs
 if [ -z "$DEMO" ]; then DEMO=$(grep -oE '[a-z0-9-]+/tests/[a-z_0-9]+\.rs' $O/demo.rs | head -1); fi
 [ -f "$DEMO" ] || cp $O/demo.rs $DEMO
